@@ -604,6 +604,36 @@ func genCases(seed uint64, n int, thorough bool) []Case {
 		}
 	}
 
+	// escaped literals in FILE ignore entries: the backslash is a meta character of
+	// path.Match, so "a\\.txt" ignores a.txt, "a\\ b" ignores "a b", "\\[x\\]" ignores
+	// "[x]"; a trailing backslash is ErrBadPattern (logged, ignores nothing) - none
+	// of them contains '*', '?' or '['-unescaped, and none is the literal name.
+	escTree := treeEntries([]string{"a.txt", "a b", "[x]", "axtxt", "b", "d/a.txt", "d/a b", "a\\.txt"})
+	escIgn := []string{"a\\.txt", "a\\ b", "\\[x\\]", "a.txt\\", "d/a\\.txt", "\\a\\.\\t\\x\\t", "\\b", "d/\\a\\ b",
+		"a\\\\.txt", "a\\*", "\\a.txt", "b\\", "d\\/a.txt"}
+	etid2 := 270000
+	for _, pk := range []string{"", "pkg"} {
+		etid2++
+		tr := escTree
+		if pk != "" {
+			var fl []string
+			for _, e := range escTree {
+				if !e.D {
+					fl = append(fl, pk+"/"+e.P)
+				}
+			}
+			tr = treeEntries(fl)
+		}
+		for _, sel := range []string{"**", "*", "d/*"} {
+			for i, ig := range escIgn {
+				add(Case{Stream: "fileset-esc", Op: "fileset", P: pk, Tree: tr, TreeID: etid2,
+					Rule: &Rule{Name: "fs", Files: []string{}, Select: []string{sel}, Ignore: []string{ig}}})
+				add(Case{Stream: "fileset-esc", Op: "fileset", P: pk, Tree: tr, TreeID: etid2,
+					Rule: &Rule{Name: "fs", Files: []string{}, Select: []string{sel}, Ignore: []string{escIgn[(i+3)%len(escIgn)], ig, "b"}}})
+			}
+		}
+	}
+
 	// symbolic links in the source tree: to a file inside, to a file outside the
 	// workspace, to a directory outside, dangling, to a directory inside.
 	linkBase := []string{"d/x", "d/y.txt", "d2/x", "a.txt", "p/q.txt"}
